@@ -362,11 +362,11 @@ PROPS["C18"] = {"templates": PRELUDE + ["89_ec_choices.vrs"] + MAIN, "extern": T
                                               "Clone::clone is specified by vstd's `cloned` relation"]}
 
 # C06: Verus for the combination selectors (Weighted, WeightedPair) and Lexicase; Kani for membership-by-address, the remaining selectors and the no-panic clause
-PROPS["C06"] = {"template_sets": [PRELUDE + ["82_ec_weighted.vrs"] + MAIN, PRELUDE + ["86_ec_lexicase.vrs"] + MAIN, PRELUDE + ["87_ec_selectors.vrs"] + MAIN], "expand": ["ec-core"], "extern": True,
+PROPS["C06"] = {"template_sets": [PRELUDE + ["82_ec_weighted.vrs"] + MAIN, PRELUDE + ["86_ec_lexicase.vrs"] + MAIN, PRELUDE + ["87_ec_selectors.vrs"] + MAIN, PRELUDE + ["83_ec_erased.vrs"] + MAIN], "expand": ["ec-core"], "extern": True,
                 "steps": [run_verus_multi, run_kani_property], "level": "model_checking", "kani": KANI["C06"],
                 "explanation": KANI_EXPL + " Verus (unbounded): Weighted::select / WeightedPair::select return a member's selection or exactly ZeroWeight / the member's error; "
                                "Lexicase::select returns population[i] for a surviving i or exactly EmptyPopulation / MissingTestCase; Best / Worst / Random / Tournament return population[i] "
-                               "for an in-range i or exactly EmptyPopulation / TournamentSizeError (see C07, C08, C13).",
+                               "for an in-range i or exactly EmptyPopulation / TournamentSizeError; the erased dyn_select returns exactly what the wrapped selector returns, its error converted (see C07, C08, C13, C17).",
                 "assumptions": KANI_ASSUME}
 
 # C16: self-composition harnesses (Kani) + the functional contracts proved elsewhere (Verus): a function whose result and
